@@ -14,7 +14,11 @@ def _work(job):
     def go():
         stats = common.SolverStats()
         try:
-            tpl = tv.Template(tdict["name"], text=tdict["text"], domains=tdict.get("dom"), role=tdict.get("role"), extra_files=tdict.get("files"))
+            prog = None
+            if tdict.get("ref_text"):
+                from syltsem import parse as SP
+                prog = SP.strip_parens(SP.parse_program(tdict["ref_text"]))
+            tpl = tv.Template(tdict["name"], text=tdict["text"], prog=prog, domains=tdict.get("dom"), role=tdict.get("role"), extra_files=tdict.get("files"))
         except Exception as e:
             return {"name": tdict["name"], "status": "template_error", "why": "%s: %s" % (type(e).__name__, e), "stats": stats.as_dict()}
         try:
